@@ -309,6 +309,16 @@ def extract() -> dict:
     return r
 
 
+def load_by_design() -> list[str]:
+    d = json.load(open(CLASS_FILE))
+    out = []
+    for name, v in d["attributes"].items():
+        if v.get("by_design"):
+            need(v["class"] == "finding", f"{name}: by_design only applies to class finding")
+            out.append(name)
+    return out
+
+
 def load_class() -> list[tuple[str, str, str]]:
     d = json.load(open(CLASS_FILE))
     out = []
@@ -358,7 +368,10 @@ def generate() -> dict[str, str]:
          "From Coq Require Import List String.", "Import ListNotations.", "Open Scope string_scope.", "",
          "Inductive oclass := Key | Dir | PostLoad | Inert | Finding.", "",
          "Definition classification : list (string * oclass) :=\n  [" +
-         ";\n   ".join(f"({q(n)}, {dict(key='Key', dir='Dir', post_load='PostLoad', inert='Inert', finding='Finding')[c]})" for n, c, _ in cl) + "]."]
+         ";\n   ".join(f"({q(n)}, {dict(key='Key', dir='Dir', post_load='PostLoad', inert='Inert', finding='Finding')[c]})" for n, c, _ in cl) + "].",
+         "",
+         "(* findings that are deliberate behaviour of mypy (\"by_design\": true), each recorded as a known finding *)",
+         f"Definition by_design : list string := {slist(load_by_design())}."]
     files = {"OptionsTable.v": table, "OptionsClass.v": "\n".join(C) + "\n"}
     for k, v in files.items():
         vlib.write_if_changed(os.path.join(vlib.GEN, k), v)
